@@ -1,4 +1,5 @@
 import Goat.Model.TreeSort
+import Goat.Lemmas.Resolve
 /-!
 # C16 — declaration order and file layout inside a package do not matter
 
@@ -226,6 +227,51 @@ theorem sort_determined_by_classes (l1 l2 : List (String × α))
       rw [h q (hq q (List.mem_cons_self ..)), ih (fun p hp => hq p (List.mem_cons_of_mem _ hp))]
   exact this levels (fun _ h => h)
 
+/-! ### the other half: what a reference means does not depend on the compile order
+
+Hoisting decides in which order bodies are compiled; the table of globals that a body is compiled
+against therefore differs between layouts (which package-level keys already exist, which types other
+functions declared). The resolution of an identifier reads only three things from that table. -/
+
+open Goat.Resolve
+
+/-- **resolve_layout_independent.** Two tables - the table of globals as two different compile orders of the
+    package's declarations leave it when the body of a function is reached - that agree on the function's own
+    types and on the builtins give the same resolution of an identifier, provided they agree on the package-level
+    key of every identifier that is ALSO a builtin. (For every other identifier the order cannot matter: a
+    package-level name that is not there yet is a forward reference to the same key.) -/
+theorem resolve_layout_independent (t1 t2 : Tab) (c : Ctx) (x : String)
+    (hl : Key.ltype c.fn x ∈ t1.keys ↔ Key.ltype c.fn x ∈ t2.keys)
+    (hb : Key.builtin x ∈ t1.keys ↔ Key.builtin x ∈ t2.keys)
+    (hg : Key.builtin x ∈ t1.keys → (Key.glob x ∈ t1.keys ↔ Key.glob x ∈ t2.keys)) :
+    resolve t1 c x = resolve t2 c x := by
+  by_cases hd : x = "$" <;> by_cases hs : (c.inScope = true ∧ Key.ltype c.fn x ∈ t2.keys) <;> by_cases hx : x ∈ c.locals <;>
+    by_cases hbx : Key.builtin x ∈ t1.keys
+  all_goals first
+    | (have hg' := hg hbx
+       simp [resolve, resolveWith, Gen.resolveOrder, firstSome, tryStep, hl, ← hb, hg', hd, hs, hx, hbx])
+    | (have hbx2 : Key.builtin x ∉ t2.keys := fun h => hbx (hb.mpr h)
+       by_cases h1 : Key.glob x ∈ t1.keys <;> by_cases h2 : Key.glob x ∈ t2.keys <;>
+         simp [resolve, resolveWith, Gen.resolveOrder, firstSome, tryStep, hl, hbx, hbx2, h1, h2, hd, hs, hx])
+
+/-- in particular: no package-level name of the package is spelled like a builtin -/
+theorem resolve_layout_independent_of_no_clash (t1 t2 : Tab) (c : Ctx) (x : String)
+    (hl : Key.ltype c.fn x ∈ t1.keys ↔ Key.ltype c.fn x ∈ t2.keys)
+    (hb : Key.builtin x ∈ t1.keys ↔ Key.builtin x ∈ t2.keys)
+    (n1 : Key.builtin x ∈ t1.keys → Key.glob x ∉ t1.keys) (n2 : Key.builtin x ∈ t2.keys → Key.glob x ∉ t2.keys) :
+    resolve t1 c x = resolve t2 c x :=
+  resolve_layout_independent t1 t2 c x hl hb (fun h => ⟨fun g => absurd g (n1 h), fun g => absurd g (n2 (hb.mp h))⟩)
+
+/-- the excluded case is real: a package-level function spelled like a builtin is found when it was compiled
+    before the reference and the builtin is taken when it comes after (open finding C16 builtin-named-function) -/
+theorem builtin_clash_order_dependent :
+    resolve { keys := [.builtin "println", .glob "println"], compiled := [] } { fn := "main.use", inScope := true, locals := [] } "println"
+      ≠ resolve { keys := [.builtin "println"], compiled := [] } { fn := "main.use", inScope := true, locals := [] } "println" := by
+  decide
+
+/-! The excluded case is the open finding `C16 builtin-named-function` (a package-level function spelled
+like a builtin that is an ordinary global: println, print, ...). -/
+
 /-! ### non-vacuity -/
 
 example : treeSort [("var", 1), ("function", 2), ("call", 3), ("init", 4), ("type", 5), ("method", 6), (":=", 7), ("function", 8), ("const", 9), ("import", 10)]
@@ -241,3 +287,6 @@ end Goat.Props.C16
 #print axioms Goat.Props.C16.sort_keeps_class_order
 #print axioms Goat.Props.C16.sort_respects_permutation
 #print axioms Goat.Props.C16.sort_determined_by_classes
+#print axioms Goat.Props.C16.resolve_layout_independent
+#print axioms Goat.Props.C16.resolve_layout_independent_of_no_clash
+#print axioms Goat.Props.C16.builtin_clash_order_dependent
